@@ -101,6 +101,12 @@ pub const GEN_PRESETS: &[(usize, u8, fn() -> GenGeom)] = &[
     (12, 3, || GenGeom { rsvd: 32, high_nibbles: true, eoc: 0, pad_garbage: true, ..Default::default() }),
     (13, 2, || GenGeom { rsvd: 16, mirror_off: Some(1), root_cluster: 100, label: true, ..Default::default() }),
     (14, 1, || GenGeom { rsvd: 8, fsinfo: 1, bkboot: 6, high_nibbles: true, ..Default::default() }),
+    // mirroring on with a stray value in the active-copy nibble; table entry 1 with the shutdown / error bits cleared
+    (12, 3, || GenGeom { rsvd: 32, stray_active: 1, high_nibbles: true, ..Default::default() }),
+    (13, 2, || GenGeom { rsvd: 12, stray_active: 2, fat1: 1, ..Default::default() }),
+    (8, 2, || GenGeom { rsvd: 2, fat1: 1, ..Default::default() }),
+    (12, 2, || GenGeom { rsvd: 32, fat1: 3, ..Default::default() }),
+    (9, 1, || GenGeom { rsvd: 4, fat1: 2, eoc: 1, ..Default::default() }),
 ];
 
 /// (FAT width, cluster count, sectors per cluster)
